@@ -7,9 +7,29 @@ import (
 	"go/constant"
 	"go/token"
 	"strings"
+
+	"golang.org/x/tools/go/ssa"
 )
 
-const balTransferFn = "contracts/balance.Token.transfer"
+// balTransferFn: the fq name of the one helper that moves tokens (it emits the
+// Transfer event itself); located structurally by balanceTransferFn.
+var balTransferFn = "contracts/balance.Token.transfer"
+
+func balanceTransferFn(cx *CheckCtx) *ssa.Function {
+	f := cx.locate("contracts/balance", "Token.transfer", "emits the Transfer event", func(f *ssa.Function) bool { return notifiesDirect(f, "Transfer") })
+	if f != nil {
+		balTransferFn = fq(f)
+	}
+	return f
+}
+
+// fnParam: the i-th parameter of a helper analysed as a root.
+func fnParam(tb *TermBuilder, fn *ssa.Function, i int) *Term {
+	if i < len(fn.Params) {
+		return tb.mk("param", fmt.Sprintf("%d:%s", i, fn.Params[i].Name()), 0)
+	}
+	return tb.mk("param", fmt.Sprintf("%d:?", i), 0)
+}
 
 func init() {
 	register(&Check{
@@ -240,7 +260,7 @@ func runBalance(cx *CheckCtx, prop string) {
 	if c == nil {
 		return
 	}
-	tfn := cx.pkgFunc("contracts/balance", "Token.transfer")
+	tfn := balanceTransferFn(cx)
 	if tfn == nil {
 		return
 	}
@@ -250,8 +270,8 @@ func runBalance(cx *CheckCtx, prop string) {
 		rootM := &Method{C: c, ABI: "Token.transfer", GoName: "Token.transfer", Fn: tfn, NParams: len(tfn.Params)}
 		ra := cx.run(rootM)
 		tb := ra.tb
-		tc := &transferCall{a: ra, m: rootM, frame: tb.root, from: paramTerm(tb, rootM, "from"), to: paramTerm(tb, rootM, "to"),
-			amt: paramTerm(tb, rootM, "amount"), details: paramTerm(tb, rootM, "details")}
+		tc := &transferCall{a: ra, m: rootM, frame: tb.root, from: fnParam(tb, tfn, 2), to: fnParam(tb, tfn, 3),
+			amt: fnParam(tb, tfn, 4), details: fnParam(tb, tfn, 6)}
 		sortTransferEffects(tc)
 		checkTransferLegs(cx, tc, "balance.Token.transfer")
 	}
@@ -619,6 +639,9 @@ func recOfStruct(tb *TermBuilder, v *Term) *Term {
 
 func runC09(cx *CheckCtx) {
 	w := cx.W
+	if balanceTransferFn(cx) == nil {
+		return
+	}
 	// ---- D1: Lock
 	if m := cx.method("balance", "Lock"); m != nil {
 		a := cx.run(m)
@@ -670,13 +693,13 @@ func runC09(cx *CheckCtx) {
 	}
 	// partial debits (burn, transfer out of a lock account) keep Until/Parent: the debit store of
 	// Token.transfer is the loaded record with only Balance changed
-	if tfn := cx.pkgFunc("contracts/balance", "Token.transfer"); tfn != nil {
+	if tfn := balanceTransferFn(cx); tfn != nil {
 		c := cx.contract("balance")
 		rootM := &Method{C: c, ABI: "Token.transfer", GoName: "Token.transfer", Fn: tfn, NParams: len(tfn.Params)}
 		ra := cx.run(rootM)
 		tb := ra.tb
-		tc := &transferCall{a: ra, m: rootM, frame: tb.root, from: paramTerm(tb, rootM, "from"), to: paramTerm(tb, rootM, "to"),
-			amt: paramTerm(tb, rootM, "amount"), details: paramTerm(tb, rootM, "details")}
+		tc := &transferCall{a: ra, m: rootM, frame: tb.root, from: fnParam(tb, tfn, 2), to: fnParam(tb, tfn, 3),
+			amt: fnParam(tb, tfn, 4), details: fnParam(tb, tfn, 6)}
 		sortTransferEffects(tc)
 		ok := false
 		where := w.pos(tfn.Pos())
@@ -768,6 +791,16 @@ func paramTerm(tb *TermBuilder, m *Method, name string) *Term {
 	for i, p := range m.Fn.Params {
 		if p.Name() == name {
 			return tb.mk("param", fmt.Sprintf("%d:%s", i, name), 0)
+		}
+	}
+	// renamed parameter: the position it had on the reference tree
+	if m.C != nil {
+		if ord := abiParamOrder[m.C.Name+"."+m.GoName]; len(ord) == len(m.Fn.Params) {
+			for i, n := range ord {
+				if n == name {
+					return tb.mk("param", fmt.Sprintf("%d:%s", i, m.Fn.Params[i].Name()), 0)
+				}
+			}
 		}
 	}
 	return tb.mk("param", "?:"+name, 0)
